@@ -59,12 +59,12 @@ class _FakeParent:
         yield
 
 
-def split(B, have_H, is_left, halfway=False):
+def split(B, have_H, is_left, halfway=False, shape=()):
     s, m, e = B.t('s'), B.t('m'), B.t('e')
-    W = B.x('W', ())
-    H = B.x('H', ()) if have_H else None
-    X1 = B.x('X1', ())
-    X2 = B.x('X2', ()) if have_H else None
+    W = B.x('W', shape)
+    H = B.x('H', shape) if have_H else None
+    X1 = B.x('X1', shape)
+    X2 = B.x('X2', shape) if have_H else None
     child = bi._Interval.__new__(bi._Interval)
     child._parent = _FakeParent(s, m, e, W, H, X1, X2)
     child._is_left = is_left
@@ -130,11 +130,11 @@ def aggregate(B, npieces, have_A):
     return {'W': W, 'U': U}
 
 
-def levy(B, mode):
-    """_davie_foster_approximation for one batch row with m = 2 channels."""
-    W, H = B.x('W', (1, 2)), B.x('H', (1, 2))
+def levy(B, mode, batch=1):
+    """_davie_foster_approximation for `batch` rows with m = 2 channels."""
+    W, H = B.x('W', (batch, 2)), B.x('H', (batch, 2))
     h = B.t('h')
-    N = B.x('N', (1, 2, 2))
+    N = B.x('N', (batch, 2, 2))
     A = bi._davie_foster_approximation(W, H, h, mode, lambda: N)
     return {'A': A}
 
